@@ -184,7 +184,7 @@ def check(repo, tier):
                     if not good:
                         run.add(F(entry, 'D2 dtype of the scalar multiple', f'{scen}: no core became complex'))
         # transpose
-        core_sets = [None, [0], list(range(d))[-1:]] if d > 1 else [None]
+        core_sets = [None, [0], list(range(d))[-1:], []] if d > 1 else [None, []]          # ([]: an empty selection transposes nothing -- it is not 'no selection given')
         for cores_arg, conjugate in itertools.product(core_sets, (False, True)):
             scen = f'transpose(order={d}, cores={cores_arg}, conjugate={conjugate})'
             entry = f'{TTM}.TT.transpose'
